@@ -4,6 +4,7 @@ package jp
 
 import (
 	"encoding/json"
+	"sort"
 )
 
 // TargetRest is used by the MatchHandler to associate a Target and Rest of a
@@ -138,9 +139,7 @@ func (h *MatchHandler) objArrayEnd() {
 	h.Path = h.Path[:len(h.Path)-1]
 	if 0 < len(h.Stack) {
 		if len(h.Stack) == 1 {
-			if v, p, ok := h.checkRest(h.Stack[0]); ok {
-				h.OnData(p, v)
-			}
+			h.reportMatch(h.Stack[0])
 		}
 		v := h.Stack[len(h.Stack)-1]
 		h.Stack = h.Stack[:len(h.Stack)-1]
@@ -164,24 +163,54 @@ func (h *MatchHandler) incNth() {
 	}
 }
 
-func (h *MatchHandler) checkRest(v any) (any, Expr, bool) {
-	var tr *TargetRest
-	for _, t := range h.Targets {
-		if PathMatch(t.Target, h.Path) {
-			tr = t
-			break
+// reportMatch calls OnData for a completed container that matched a target. If
+// the target continues with a filter, OnData is called once for every location
+// the rest of the target selects in the container, in array order.
+func (h *MatchHandler) reportMatch(v any) {
+	var locs []Expr
+	for _, tr := range h.Targets {
+		if !PathMatch(tr.Target, h.Path) {
+			continue
+		}
+		if tr.Rest == nil {
+			// The container itself is selected which covers anything in it.
+			h.OnData(h.Path, v)
+			return
+		}
+	next:
+		for _, loc := range tr.Rest.Locate(v, 0) {
+			for _, have := range locs {
+				if !locLess(have, loc) && !locLess(loc, have) {
+					continue next
+				}
+			}
+			locs = append(locs, loc)
 		}
 	}
-	p := h.Path
-	if tr != nil && tr.Rest != nil {
-		locs := tr.Rest.Locate(v, 1)
-		if len(locs) == 0 {
-			return nil, p, false
-		}
-		p = append(p, locs[0]...)
-		v = tr.Rest.First(v)
+	sort.Slice(locs, func(i, j int) bool { return locLess(locs[i], locs[j]) })
+	for _, loc := range locs {
+		p := make(Expr, 0, len(h.Path)+len(loc))
+		p = append(append(p, h.Path...), loc...)
+		h.OnData(p, loc.First(v))
 	}
-	return v, p, true
+}
+
+// locLess orders normalized paths by position: indexes numerically, keys
+// lexically.
+func locLess(a, b Expr) bool {
+	for i := 0; i < len(a) && i < len(b); i++ {
+		switch fa := a[i].(type) {
+		case Nth:
+			if fb, ok := b[i].(Nth); ok && fa != fb {
+				return fa < fb
+			}
+		case Child:
+			if fb, ok := b[i].(Child); ok && fa != fb {
+				return fa < fb
+			}
+		}
+	}
+	return len(a) < len(b)
 }
 
 func (h *MatchHandler) pathMatch(leaf bool) bool {
